@@ -282,3 +282,41 @@ ROUND3 = [
     fire('r3-get-position-tail-fastpath', ['C08'], [(TS, "        for i in range(handle.index):\n            pos += handle.block.tokens[i].size\n        return pos", "        block = handle.block\n        if handle.index > block.last_newline_index:\n            pos.line += block.size.line\n            pos.column = 0\n            for i in range(max(block.last_newline_index, 0), handle.index):\n                pos.column += block.tokens[i].size.column\n            return pos\n        for i in range(handle.index):\n            pos += block.tokens[i].size\n        return pos")], 'POS-SEM'),
 ]
 VARIANTS += ROUND3
+
+# ------------------------------------------------------------------ rules added after seeded round 4
+NM = 'autobean_refactor/models/number.py'
+NMU = 'autobean_refactor/models/number_mul_expr.py'
+TO = 'autobean_refactor/models/tolerance.py'
+ROUND4 = [
+    fire('r4-get-first-memo', ['C07'], [(TS, "    _blocks: list[_StoreBlock[_T]]\n    _len: int\n\n    def __init__(self) -> None:\n        self._blocks = [_StoreBlock(self, 0, [])]\n        self._len = 0\n",
+                                         "    _blocks: list[_StoreBlock[_T]]\n    _len: int\n    _first: Optional[_T]\n\n    def __init__(self) -> None:\n        self._blocks = [_StoreBlock(self, 0, [])]\n        self._len = 0\n        self._first = None\n"),
+                                        (TS, "        return self._blocks and self._blocks[0].tokens and self._blocks[0].tokens[0] or None\n",
+                                         "        if self._first is None:\n            self._first = self._blocks and self._blocks[0].tokens and self._blocks[0].tokens[0] or None\n        return self._first\n")], 'NAV-SEM'),
+    silent('r4-twin-get-index-sum', ['C07'], [(TS, "        index = handle.index\n        for i in range(handle.block.index):\n            index += len(self._blocks[i].tokens)\n        return index",
+                                               "        return handle.index + sum(len(self._blocks[i].tokens) for i in range(handle.block.index))")]),
+    fire('r4-get-position-block-cache', ['C08'], [(TS, "    _blocks: list[_StoreBlock[_T]]\n    _len: int\n\n    def __init__(self) -> None:\n        self._blocks = [_StoreBlock(self, 0, [])]\n        self._len = 0\n",
+                                                   "    _blocks: list[_StoreBlock[_T]]\n    _len: int\n    _starts: Optional[list[Position]]\n\n    def __init__(self) -> None:\n        self._blocks = [_StoreBlock(self, 0, [])]\n        self._len = 0\n        self._starts = None\n"),
+                                                  (TS, "        pos = Position()\n        for i in range(handle.block.index):\n            pos += self._blocks[i].size\n        for i in range(handle.index):",
+                                                   "        if self._starts is None or len(self._starts) != len(self._blocks):\n            self._starts = []\n            run = Position()\n            for block in self._blocks:\n                self._starts.append(copy.copy(run))\n                run += block.size\n        pos = copy.copy(self._starts[handle.block.index])\n        for i in range(handle.index):")], 'POS-HIST'),
+    fire('r4-view-pop-view-index', ['C10', 'C03'], [(VP, "        raw_index = self._raw_indexes[index]\n        return self._from_raw_type(self._raw_wrapper.pop(raw_index))", "        return self._from_raw_type(self._raw_wrapper.pop(index))")], 'IDX-SPACE'),
+    fire('r4-handler-bisect-view', ['C10'], [(VP, "        rr = bisect.bisect_left(self._raw_indexes, r)", "        rr = bisect.bisect_left(self._raw_indexes, ll + r - l)")], 'IDX-SPACE'),
+    silent('r4-twin-view-remove-range', ['C10', 'C03'], [(VP, "        for raw_index in self._raw_indexes:\n            if self._from_raw_type(self._raw_wrapper[raw_index]) == value:\n                self._raw_wrapper.pop(raw_index)\n                return",
+                                                          "        for i in range(len(self._raw_indexes)):\n            raw_index = self._raw_indexes[i]\n            if self._from_raw_type(self._raw_wrapper[raw_index]) == value:\n                self._raw_wrapper.pop(raw_index)\n                return")]),
+    fire('r4-number-format-str', ['C12'], [(NM, "        return format(value, 'f')", "        return str(value)")], 'FMT-LANG'),
+    fire('r4-number-format-plain-fstring', ['C12'], [(NM, "        return format(value, 'f')", "        return f'{value}'")], 'FMT-LANG'),
+    silent('r4-twin-number-format-fstring-f', ['C12'], [(NM, "        return format(value, 'f')", "        return f'{value:f}'")]),
+    fire('r4-parse-normalises-newlines', ['C01'], [(PA, "    def parse(self, text: str, target: Type[_U], *, auto_claim_comments: bool = True) -> _U:\n", "    def parse(self, text: str, target: Type[_U], *, auto_claim_comments: bool = True) -> _U:\n        text = text.replace('\\r\\n', '\\n')\n")], 'TEXT-VERBATIM'),
+    fire('r4-token-init-strips', ['C01'], [(TS, "        self._raw_text = raw_text\n        self.store_handle = None", "        self._raw_text = raw_text.rstrip('\\x00')\n        self.store_handle = None")], 'TEXT-VERBATIM'),
+    silent('r4-twin-parse-local', ['C01'], [(PA, "    def parse(self, text: str, target: Type[_U], *, auto_claim_comments: bool = True) -> _U:\n", "    def parse(self, text: str, target: Type[_U], *, auto_claim_comments: bool = True) -> _U:\n        _ = len(text)\n")]),
+    fire('r4-required-field-claim-guard', ['C14'], [(FL, "    def auto_claim_comments(self, value: _M) -> None:\n        value.auto_claim_comments()", "    def auto_claim_comments(self, value: _M) -> None:\n        if value.first_token is value.last_token:\n            return\n        value.auto_claim_comments()")], 'CLAIM-DESCEND'),
+    silent('r4-twin-repeated-claim-slice', ['C14'], [(RP, "        for item in reversed(self.items):\n            item.auto_claim_comments()", "        for item in self.items[::-1]:\n            item.auto_claim_comments()")]),
+    fire('r4-add-expr-first-token-cached', ['C17', 'C10'], [(NA, "    @property\n    def first_token(self) -> base.RawTokenModel:\n        return self._raw_operands[0].first_token", "    @functools.cached_property\n    def first_token(self) -> base.RawTokenModel:\n        return self._raw_operands[0].first_token"),
+                                                            (NA, "import decimal\n", "import decimal\nimport functools\n")], 'MEMO'),
+    silent('r4-twin-schema-memo', ['C10', 'C17', 'C18'], [(PR, "    def register_update_handler(self, handler: RepeatedNodeWrapperUpdateHandler) -> None:", "    @functools.cached_property\n    def _default_separators(self) -> tuple[base.RawTokenModel, ...]:\n        return self._field.separators\n\n    def register_update_handler(self, handler: RepeatedNodeWrapperUpdateHandler) -> None:")]),
+    fire('r4-node-wrapper-extend-mixin', ['C19'], [(PR, "    def extend(self, values: Iterable[_M]) -> None:\n        values = list(values)\n        index = len(self._repeated.items)\n        self._insert_tokens(index, values)\n        for value in values:\n            value.reattach(self._repeated.token_store)\n        self._repeated.items.extend(values)\n        self._notify_splice(index, index, values)\n\n", "")], 'MIXIN-BATCH'),
+    fire('r4-tolerance-setter-partial', ['C09'], [(TO, "        self.raw_number.value = value", "        atom = self.raw_number.raw_number_add_expr.raw_operands[0].raw_operands[0]\n        atom.value = value  # type: ignore[union-attr]")], 'SET-COVERS'),
+    silent('r4-twin-number-expr-setter-local', ['C09', 'C13'], [(NE, "        self.raw_number_add_expr = _add_expr_from_value(value)", "        rebuilt = _add_expr_from_value(value)\n        self.raw_number_add_expr = rebuilt")]),
+    fire('r4-unclaim-empty-means-all', ['C14'], [(IC, "            {id(comment) for comment in comments} if comments is not None else None)", "            {id(comment) for comment in comments} if comments else None)")], 'PRESENCE-TRUTH'),
+    silent('r4-twin-or-empty-default', ['C14', 'C10'], [(IC, "            {id(comment) for comment in comments} if comments is not None else None)", "            {id(comment) for comment in (comments or ())} if comments is not None else None)")]),
+]
+VARIANTS += ROUND4
